@@ -11,24 +11,31 @@
 (*   <<"constT", value, type>>    constant with the like given as a type   *)
 (*   <<"const0", value>>          constant created without a like          *)
 (*                                ("int:2", "1.5", "cplx", "true", ...)    *)
+(* Leaf constants of different types mostly carry different values: the    *)
+(* package names a constant after its value only, and constants of one     *)
+(* value with different likes end up in one variable (a finding of its     *)
+(* own that would otherwise dominate the deeper terms).                    *)
 (*   <<kind, operand, ...>>       operation                                *)
 (* A symbol name has ONE type inside a term (the dtype assignment).        *)
 (* Well-typedness is FATypes!WellTyped on the static types FATypes!TypeOf  *)
 (* computes; ill-typed programs (logical_not of a float ...) are never     *)
 (* emitted.  Each term is printed with the static type the spec derives    *)
 (* for it: <<"H", term, ST(term)>>; the driver cross-checks it against the *)
-(* package (drift if different, and the term is then not used).            *)
+(* package (a drift note if different; the term is still well-typed by the *)
+(* discipline and is used: a package that infers another static type for   *)
+(* it is exactly what the trace spec must get to see).                     *)
 (*                                                                         *)
 (*   Gen = "ops1"    every 1-operation term, every kind, over every pair   *)
 (*                   of symbol dtypes and every constant flavour           *)
 (*   Gen = "ops2"    every 2-operation term over representative kinds,     *)
-(*                   incl. constants like the inner operation              *)
+(*                   incl. constants like the inner operation (Small:      *)
+(*                   a smaller set of representative kinds)                *)
 (*   Gen = "random"  NumRandom random terms of depth <= MaxDepth under a   *)
 (*                   random dtype assignment of x, y, z                    *)
 (***************************************************************************)
 EXTENDS FATypes
 
-CONSTANTS Gen, NumRandom, MaxDepth
+CONSTANTS Gen, NumRandom, MaxDepth, Small
 
 Sym(nm, t) == <<"sym", nm, t>>
 Const(v, like) == <<"const", v, like>>
@@ -36,7 +43,7 @@ ConstT(v, t) == <<"constT", v, t>>
 Const0(v) == <<"const0", v>>
 IsLeaf(t) == t[1] \in {"sym", "const", "constT", "const0"}
 
-Const0Type(v) == CASE v \in {"int:2", "int:3"} -> TInt
+Const0Type(v) == CASE v \in {"int:2", "int:3", "int:5"} -> TInt
                    [] v \in {"1.5", "0.25"} -> TFloat(0)
                    [] v = "cplx" -> TComplex(0)
                    [] OTHER -> TBool
@@ -86,21 +93,31 @@ Terms1(L) ==
 Ops1 == UNION {{t \in Terms1(NL1(tx, ty) \cup BL1) : OkOp(t[1], SubSeq(t, 2, Len(t)))} : tx \in SymTypes, ty \in SymTypes}
 
 (*************************** "ops2" ****************************************)
-Rep1 == {"negative", "sqrt", "absolute", "real", "imag", "conjugate", "upcast", "downcast", "square", "exp"}
-Rep2 == {"add", "divide", "maximum", "minimum", "copysign", "hypot", "pow", "complex"}
-RepB == {"lt", "eq", "is_finite"}
+\* Two-operation terms: an inner operation over x, y and an integer constant, fed into every position
+\* of an outer operation whose other operand is a symbol; constants LIKE the inner operation used
+\* beside it; conditions that are a symbol or a comparison.  The dtype assignment ranges over
+\* unordered pairs (both operand orders occur inside the terms).
+\* Small = TRUE (quick tier, which samples the result anyway): fewer representative kinds
+Rep1 == IF Small THEN {"sqrt", "absolute", "real", "upcast", "downcast"}
+        ELSE {"negative", "sqrt", "absolute", "real", "imag", "conjugate", "upcast", "downcast", "square", "exp"}
+Rep2 == IF Small THEN {"add", "maximum", "copysign", "complex"}
+        ELSE {"add", "divide", "maximum", "minimum", "copysign", "hypot", "pow", "complex"}
+TOrd(t) == Rank(t[1]) * 1000 + t[2]
+Pairs == {p \in SymTypes \X SymTypes : TOrd(p[1]) <= TOrd(p[2])}
 Inner(L) == {t \in {Mk(k, <<a>>) : k \in Rep1, a \in L} \cup {Mk(k, <<a, b>>) : k \in Rep2, a \in L, b \in L}
                  : OkOp(t[1], SubSeq(t, 2, Len(t)))}
 Outer(I, L) ==
-  LET consts == {Const("3", i) : i \in {j \in I : OkConst(j)}}
-      B == {Sym("b", TBool)} \cup {t \in {Mk("lt", <<a, b>>) : a \in L, b \in L} : OkOp("lt", <<t[2], t[3]>>)}
+  LET IC == {j \in I : OkConst(j)}
+      B == {Sym("b", TBool)} \cup {t \in {Mk("lt", <<a, b>>) : a \in L, b \in L} : t[2] # t[3] /\ OkOp("lt", <<t[2], t[3]>>)}
       all == {Mk(k, <<i>>) : k \in Rep1 \cup {"is_finite"}, i \in I}
-             \cup {Mk(k, <<i, a>>) : k \in Rep2 \cup {"lt", "eq"}, i \in I, a \in L \cup consts}
-             \cup {Mk(k, <<a, i>>) : k \in Rep2 \cup {"lt", "eq"}, i \in I, a \in L \cup consts}
-             \cup {Mk("select", <<c, i, a>>) : c \in B, i \in I, a \in L \cup consts}
+             \cup {Mk(k, <<i, a>>) : k \in Rep2 \cup {"lt", "eq"}, i \in I, a \in L}
+             \cup {Mk(k, <<a, i>>) : k \in Rep2 \cup {"lt", "eq"}, i \in I, a \in L}
+             \cup {Mk(k, <<a, Const("3", i)>>) : k \in {"add", "maximum"}, i \in IC, a \in L}
+             \cup {Mk("multiply", <<Const("3", i), i>>) : i \in IC}
+             \cup {Mk("select", <<c, i, a>>) : c \in B, i \in I, a \in L}
              \cup {Mk("select", <<c, a, i>>) : c \in B, i \in I, a \in L}
   IN  {t \in all : OkOp(t[1], SubSeq(t, 2, Len(t)))}
-Ops2 == UNION {LET L == {Sym("x", tx), Sym("y", ty)} IN Outer(Inner(L \cup {Const0("int:2")}), L) : tx \in SymTypes, ty \in SymTypes}
+Ops2 == UNION {LET L == {Sym("x", p[1]), Sym("y", p[2])} IN Outer(Inner(L \cup {Const0("int:2")}), L) : p \in Pairs}
 
 (*************************** "random" **************************************)
 \* Every random draw is bound through a set enumeration (c \in {Pick(..)}) so that it is evaluated
@@ -111,8 +128,8 @@ Pick(S) == RandomElement(S)
 Names == {"x", "y", "z"}
 RECURSIVE RandF(_, _), RandC(_, _), RandB(_, _), RandN(_, _), ProdF(_, _, _), ProdC(_, _, _), ProdB(_, _, _)
 FLeaves(A) == {Sym(nm, A[nm]) : nm \in {m \in Names : IsFloat(A[m])}}
-              \cup {ConstT("2", TFloat(32)), ConstT("2", TFloat(64)), Const0("1.5"), Const0("int:2")}
-CLeaves(A) == {Sym(nm, A[nm]) : nm \in {m \in Names : IsCplx(A[m])}} \cup {Const0("cplx"), ConstT("1", TComplex(64))}
+              \cup {ConstT("2", TFloat(32)), ConstT("3", TFloat(64)), Const0("1.5"), Const0("int:5")}
+CLeaves(A) == {Sym(nm, A[nm]) : nm \in {m \in Names : IsCplx(A[m])}} \cup {Const0("cplx"), ConstT("7", TComplex(64))}
 BLeaves == {Sym("b", TBool), Sym("c", TBool), Const0("true"), Const0("false")}
 \* well-typed, or fall back to an operand / a boolean symbol
 Guard(k, ops, fb) == IF OkOp(k, ops) THEN Mk(k, ops) ELSE fb
